@@ -667,10 +667,20 @@ pub fn corr_publishers(r: &mut Report, d: &mut Driver, p: &Project, w: &CmdWorld
 /// C06 at the command layer: recompute every required chain from the records, with the publisher
 /// table rebuilt from the registry as served now.
 fn c06_live_publishers(r: &mut Report, p: &Project, w: &CmdWorld, case: &str) {
-    let Ok(store) = p.acquire(false) else { return };
+    r.oracle_checked += 1;
+    if let Some(Some(m)) = live_truth_missing(p, w) {
+        r.fail("oracle", "C06/cmd/grant-not-justified-by-live-registry", format!("the unlocked check succeeds, but with the publisher data crates.io serves now {m}"), case);
+    }
+}
+
+/// With the publisher table rebuilt from the registry as served now: `Some(None)` when every
+/// required (package, criterion) pair has a certifying chain over the records an unlocked run
+/// sees, `Some(Some(what))` naming a pair without one, `None` when the store cannot be judged.
+fn live_truth_missing(p: &Project, w: &CmdWorld) -> Option<Option<String>> {
+    let store = p.acquire(false).ok()?;
     let mut live = store.clone_for_suggest(false);
     drop(store);
-    let Some(li) = &mut live.live_imports else { return };
+    let li = live.live_imports.as_mut()?;
     let mut truth: SortedMap<PackageName, Vec<CratesPublisher>> = SortedMap::new();
     for (name, l) in &w.remote.registry {
         let v: Vec<CratesPublisher> = l.iter().filter_map(|rv| rv.user.map(|u| CratesPublisher {
@@ -681,22 +691,21 @@ fn c06_live_publishers(r: &mut Report, p: &Project, w: &CmdWorld, case: &str) {
         }
     }
     li.publisher = truth;
-    let Some(spec) = core::Spec::new(&live.audits.criteria) else { return };
+    let spec = core::Spec::new(&live.audits.criteria)?;
     let sg = core::SpecGraph::new(&p.md);
-    let Some(demand) = sg.demand(&live.config.policy, &spec) else { return };
-    r.oracle_checked += 1;
+    let demand = sg.demand(&live.config.policy, &spec)?;
     for q in 0..sg.ids.len() {
         if !sg.third_party(&live.config.policy, q) {
             continue;
         }
-        let Some(edges) = core::spec_edges(&live, &spec, &sg.name[q]) else { continue };
+        let edges = core::spec_edges(&live, &spec, &sg.name[q])?;
         for c in 0..spec.crits.len() {
             if demand[q] & (1 << c) != 0 && !core::spec_reach(&edges, c, &|_| true).contains(&Some(sg.ver[q].clone())) {
-                r.fail("oracle", "C06/cmd/grant-not-justified-by-live-registry", format!("the unlocked check succeeds, but with the publisher data crates.io serves now {}:{} has no certifying chain for `{}`", sg.name[q], sg.ver[q], spec.crits[c]), case);
-                return;
+                return Some(Some(format!("{}:{} has no certifying chain for `{}`", sg.name[q], sg.ver[q], spec.crits[c])));
             }
         }
     }
+    Some(None)
 }
 
 const COMMANDS: [&[&str]; 9] = [
@@ -975,13 +984,32 @@ pub fn corpus_regen_exemptions() -> (CmdWorld, Project) {
 pub fn exec_history(r: &mut Report, rng: &mut Rng, idx: u64, mut w: CmdWorld, p: Project, fixed: Option<Vec<&'static [&'static str]>>) {
     r.evaluations += 1;
     let prop = r.prop.clone();
-    let mut driver: Option<Driver> = if prop == "C06" { Some(Driver::spawn()) } else { None };
+    let mut driver: Option<Driver> = if prop == "C06" || prop == "C02" { Some(Driver::spawn()) } else { None };
     w.remote.install();
     if fixed.is_none() && rng.chance(1, 5) {
         // the store on disk was last written by an older cargo-vet, or touched by hand without
         // changing what it says: unlocked commands accept it and write the canonical form
         let mut files = p.files();
-        if rng.chance(1, 2) {
+        let pick = rng.below(3);
+        let mut merged = false;
+        if pick == 2 {
+            // a merge left a second, identical copy of an audit after the crate's other audits
+            let mut blocks: Vec<String> = files[0].split("\n[[").map(|b| b.to_owned()).collect();
+            let head = |b: &str| b.split("]]").next().unwrap_or("").to_owned();
+            if let Some(i) = (1..blocks.len()).find(|&i| blocks[i].starts_with("audits.") && i + 1 < blocks.len() && head(&blocks[i + 1]) == head(&blocks[i]) && blocks[i + 1] != blocks[i]) {
+                let j = (i..blocks.len()).take_while(|&j| head(&blocks[j]) == head(&blocks[i])).last().unwrap();
+                let copy = blocks[i].clone();
+                if !blocks[j].ends_with('\n') {
+                    blocks[j].push('\n');
+                }
+                blocks.insert(j + 1, copy);
+                files[0] = blocks.join("\n[[");
+                merged = true;
+                r.count("store:merge-left-duplicate-audit");
+            }
+        }
+        if merged {
+        } else if pick == 1 {
             files[1] = files[1].replacen("version = \"1.0\"", "version = \"0.9\"", 1);
         } else {
             files[0] = format!("# reviewed by hand on 2022-12-01\n{}", files[0]);
@@ -1013,7 +1041,7 @@ pub fn exec_history(r: &mut Report, rng: &mut Rng, idx: u64, mut w: CmdWorld, p:
         let before2 = p.files(); // the unlocked probe check may itself update the lock
         // clone without the store lock (a held Store would block the command under test)
         let live = if prop == "C11" { p.acquire(false).ok().map(|s| s.clone_for_suggest(false)) } else { None };
-        if prop == "C06" {
+        if prop == "C06" || prop == "C02" {
             if let Some(d) = driver.as_mut() {
                 corr_publishers(r, d, &p, &w, &format!("{}\nbefore step: {cmd_s}", trace.join("\n")));
             }
@@ -1102,6 +1130,14 @@ pub fn exec_history(r: &mut Report, rng: &mut Rng, idx: u64, mut w: CmdWorld, p:
                         Outcome::Ok if !_text.contains("Vetting Succeeded") => r.fail("oracle", "C02/cmd/success-not-reported", format!("`{cmd_s}` exits 0 without reporting success: {}", _text.chars().take(200).collect::<String>()), &case),
                         Outcome::Exit(_) if !_text.contains("Vetting Failed") && !_text.contains("iolation") => r.fail("oracle", "C02/cmd/failure-not-reported", format!("`{cmd_s}` fails without a failure report: {}", _text.chars().take(200).collect::<String>()), &case),
                         _ => {}
+                    }
+                }
+                // ... and an unlocked check does not fail for lack of audits while the records
+                // it loads, with what crates.io serves about the publishers, certify everything
+                if is_check && !locked && matches!(o, Outcome::Exit(_)) && _text.contains("Vetting Failed") {
+                    r.oracle_checked += 1;
+                    if let Some(None) = live_truth_missing(&p, &w) {
+                        r.fail("oracle", "C02/cmd/fails-though-everything-certified", format!("`{cmd_s}` reports a vetting failure, but every required pair has a certifying chain over the records and the publishers crates.io serves: {}", _text.chars().take(300).collect::<String>()), &case);
                     }
                 }
             }
